@@ -51,6 +51,7 @@ typedef struct {
   int kind;      /* PL_* */
   int r0, c0;    /* offset of view in parent */
   int zero_surround;
+  int borrowed_parent; /* the parent belongs to another opnd_t (shared-parent placement) */
   word *snap; /* snapshot of whole allocation */
   size_t nwords;
   char cls[24];
@@ -63,6 +64,8 @@ typedef struct {
 opnd_t *opnd_make(rng_t *r, const rm_t *val, int kind);
 /* wrap an already created owned matrix (e.g. returned by the library) */
 opnd_t *opnd_wrap(mzd_t *M);
+/* a second view of m x n entries anchored at the same cell of host's parent (host must be a window whose block covers it) */
+opnd_t *opnd_make_in_parent(const opnd_t *host, int m, int n);
 void opnd_snapshot(opnd_t *o);
 /* number of bit positions outside the view that differ from the snapshot */
 long opnd_outside_diff(const opnd_t *o);
